@@ -743,3 +743,247 @@ func ruleC09DimensionWalk(c *Ctx) {
 		c.Check(len(whyU) == 0, "c09.dimension-walk", "Unwind", c.P.Pos(uw.Pos()), "depth 0 identity; depth-1 recursion on nested arrays", strings.Join(whyU, "; "))
 	}
 }
+
+func init() { register("C09", ruleC09ArrowGuard, ruleC09ContinueSplit, ruleC09PipeString) }
+
+// ruleC09ArrowGuard: `=>` is the function arrow only after a function name.
+func ruleC09ArrowGuard(c *Ctx) {
+	c.Doc("c09.function-arrow-guard", "selector parser (ParseSelector): the text in front of the first `=>` is taken for a top-level function name only when it passes the identifier test (isFunctionName, which rejects every byte outside [A-Za-z0-9_]); otherwise the `=>` belongs to the selector — `data[keep=>0:1]` keeps its dimension and a quoted key containing `=>` stays a key")
+	f := c.P.Func(modPath, "ParseSelector")
+	if f == nil {
+		c.Unknown("c09.function-arrow-guard", "ParseSelector", "-", "anchor lost")
+		return
+	}
+	guard := c.P.Func(modPath, "isFunctionName")
+	n, ok := 0, true
+	why := ""
+	allInstrs(f, func(b *ssa.BasicBlock, in ssa.Instruction) {
+		// the conversion of the prefix to TopLevelFunctionSelector
+		ct, isCT := in.(*ssa.ChangeType)
+		if !isCT || shortType(ct.Type()) != "TopLevelFunctionSelector" {
+			return
+		}
+		n++
+		guarded := false
+		for _, fc := range factsAt(b) {
+			cond, truth := fc.cond, fc.truth
+			for {
+				u, isU := cond.(*ssa.UnOp)
+				if !isU || u.Op != token.NOT {
+					break
+				}
+				cond, truth = u.X, !truth
+			}
+			if gc, isCall := cond.(*ssa.Call); isCall && guard != nil && gc.Common().StaticCallee() == guard && truth {
+				guarded = true
+			}
+		}
+		if !guarded {
+			ok, why = false, "the text in front of `=>` becomes a function name without an identifier test: `data[keep=>0:1:2]` fails with `data[keep is not a function` and a quoted key containing `=>` is torn apart"
+		}
+	})
+	if n == 0 {
+		ok, why = false, "anchor lost: no TopLevelFunctionSelector conversion"
+	}
+	if ok && guard != nil {
+		// the identifier test returns false inside its loop on a byte outside the classes, true after the loop
+		paths, err := WalkFunc(guard, WalkCfg{MaxVisits: 2})
+		if err != nil {
+			ok, why = false, err.Error()
+		}
+		sawFalse, sawTrue := false, false
+		for _, p := range paths {
+			if p.Exit != "return" || len(p.Ret) != 1 || p.Ret[0].C == nil {
+				continue
+			}
+			if isTrueC(p.Ret[0].C) {
+				sawTrue = true
+			} else {
+				sawFalse = true
+			}
+		}
+		if !sawFalse || !sawTrue {
+			ok, why = false, "isFunctionName does not reject anything"
+		}
+	}
+	c.Check(ok, "c09.function-arrow-guard", "ParseSelector", c.P.Pos(f.Pos()), "function arrow only after an identifier", why)
+}
+
+// ruleC09ContinueSplit: `::` continues only outside quotes.
+func ruleC09ContinueSplit(c *Ctx) {
+	c.Doc("c09.continue-split", "`::` continuation: the cache function splits the selector text with the quote-aware splitter (splitContinue), never with strings.Split on `::`; in the splitter the branch that closes a part is reachable only while no quote is open (dominated by the quoted flag being false) and the flag toggles on the single quote")
+	var cs *ssa.Function
+	for _, f := range c.P.pkgFuncs(modPath) {
+		if f.Name() == "CachedSelectors" {
+			cs = f
+		}
+	}
+	sp := c.P.Func(modPath, "splitContinue")
+	if cs == nil {
+		c.Unknown("c09.continue-split", "CachedSelectors", "-", "anchor lost")
+		return
+	}
+	var why []string
+	usesSplitter := false
+	allInstrs(cs, func(_ *ssa.BasicBlock, in ssa.Instruction) {
+		call, ok := in.(*ssa.Call)
+		if !ok || call.Common().StaticCallee() == nil {
+			return
+		}
+		name := funcName(call.Common().StaticCallee())
+		if name == "strings.Split" || name == "strings.SplitN" {
+			if s, isS := constString(call.Call.Args[1]); isS && s == "::" {
+				why = append(why, "the selector is split at every `::`, also inside a quoted key: `'a::b'` reads NULL instead of the key a::b")
+			}
+		}
+		if sp != nil && call.Common().StaticCallee() == sp {
+			usesSplitter = true
+		}
+	})
+	if sp == nil {
+		if len(why) == 0 {
+			why = append(why, "anchor lost: splitContinue")
+		}
+	} else {
+		if !usesSplitter {
+			why = append(why, "the cache function does not split with splitContinue")
+		}
+		c.Fn("splitContinue")
+		// the append that closes a part inside the loop is dominated by quoted == false
+		hs := loopHeaders(sp)
+		n := 0
+		allInstrs(sp, func(b *ssa.BasicBlock, in ssa.Instruction) {
+			call, ok := in.(*ssa.Call)
+			if !ok {
+				return
+			}
+			if bi, isB := call.Call.Value.(*ssa.Builtin); !isB || bi.Name() != "append" {
+				return
+			}
+			inLoop := false
+			for _, h := range hs {
+				if inNaturalLoop(h, b) {
+					inLoop = true
+				}
+			}
+			if !inLoop {
+				return
+			}
+			n++
+			guarded := false
+			for _, fc := range factsAt(b) {
+				cond, truth := fc.cond, fc.truth
+				for {
+					u, isU := cond.(*ssa.UnOp)
+					if !isU || u.Op != token.NOT {
+						break
+					}
+					cond, truth = u.X, !truth
+				}
+				if ph, isPhi := cond.(*ssa.Phi); isPhi && ph.Type().String() == "bool" && !truth && loopCarried(sp, ph) {
+					guarded = true
+				}
+			}
+			if !guarded {
+				why = append(why, "a part is closed at `::` without testing that no quote is open")
+			}
+		})
+		if n == 0 {
+			why = append(why, "the splitter closes no part inside its loop")
+		}
+		toggles := false
+		allInstrs(sp, func(_ *ssa.BasicBlock, in ssa.Instruction) {
+			if bo, ok := in.(*ssa.BinOp); ok && bo.Op == token.EQL {
+				if k, isK := constIntOf(bo.Y); isK && k == 39 {
+					toggles = true
+				}
+			}
+		})
+		if !toggles {
+			why = append(why, "the splitter never tests for the single quote")
+		}
+	}
+	c.Check(len(why) == 0, "c09.continue-split", "CachedSelectors", c.P.Pos(cs.Pos()), "quote-aware split at `::`", strings.Join(uniq(why), "; "))
+}
+
+// ruleC09PipeString: {k|string}.
+func ruleC09PipeString(c *Ctx) {
+	c.Doc("c09.pipe-string", "reshaping step `{k|string}` (the STRING arm of Reader's pipe case): a missing or NULL value stays NULL (the generic %v conversion is reachable only for non-nil values); a number is converted by strconv.FormatFloat(v, 'f', -1, 64) — no conversion through int64 (which saturates beyond 2^63) and no fixed six-digit %f")
+	f := c.P.Func(modPath, "Reader")
+	if f == nil {
+		c.Unknown("c09.pipe-string", "Reader", "-", "anchor lost")
+		return
+	}
+	var why []string
+	nSprintf, nFmtFloat := 0, 0
+	deepInstrs(f, func(g *ssa.Function, tb *TB, b *ssa.BasicBlock, in ssa.Instruction) {
+		// only the pipe STRING arm: blocks dominated by GetType() == STRING ... identified by the stores into the reshaped copy
+		switch x := in.(type) {
+		case *ssa.Convert:
+			if bt, ok := x.Type().Underlying().(*types.Basic); ok && bt.Kind() == types.Int64 {
+				if st, ok := x.X.Type().Underlying().(*types.Basic); ok && st.Kind() == types.Float64 {
+					why = append(why, "a float64 value is converted through int64 at "+c.P.Pos(x.Pos())+": numbers beyond 2^63 become -9223372036854775808")
+				}
+			}
+		case *ssa.Call:
+			name := calleeName(x.Common())
+			if name == "strconv.FormatFloat" {
+				nFmtFloat++
+				a := x.Call.Args
+				if len(a) == 4 {
+					f1, _ := constIntOf(a[1])
+					p1, _ := constIntOf(a[2])
+					if f1 != 'f' || p1 != -1 {
+						why = append(why, "numbers are formatted with a format other than ('f', -1): exponents or padding appear in the text")
+					}
+				}
+			}
+			if name == "fmt.Sprintf" && len(x.Call.Args) == 2 {
+				if fs, isS := constString(x.Call.Args[0]); isS && (fs == "%v" || fs == "%f" || fs == "%d") {
+					t := tb.Of(x.Call.Args[1])
+					if !strings.Contains(t.String(), "GetKey(") {
+						return
+					}
+					if fs != "%v" {
+						why = append(why, "a value is rendered with "+fs+" at "+c.P.Pos(x.Pos()))
+						return
+					}
+					nSprintf++
+					// reachable only for a non-nil value
+					guarded := false
+					// the value that is formatted
+					var formatted ssa.Value
+					if sl, isSl := x.Call.Args[1].(*ssa.Slice); isSl {
+						if al, isAl := sl.X.(*ssa.Alloc); isAl {
+							for _, st := range storesToArray(al) {
+								formatted = st.Val
+								if mi, isMI := formatted.(*ssa.MakeInterface); isMI {
+									formatted = mi.X
+								}
+							}
+						}
+					}
+					for _, fc := range factsAt(b) {
+						bo, isBo := fc.cond.(*ssa.BinOp)
+						if !isBo || !isNilConst(bo.Y) || formatted == nil || bo.X != formatted {
+							continue
+						}
+						if bo.Op == token.EQL && !fc.truth || bo.Op == token.NEQ && fc.truth {
+							guarded = true
+						}
+					}
+					if !guarded {
+						why = append(why, "the %v conversion is reachable with a NULL value: `{id|string}` on a missing key yields the text `<nil>`")
+					}
+				}
+			}
+		}
+	})
+	if nSprintf == 0 {
+		why = append(why, "anchor lost: no %v conversion of a reshaped value")
+	}
+	if nFmtFloat == 0 {
+		why = append(why, "numbers are not converted with strconv.FormatFloat")
+	}
+	c.Check(len(why) == 0, "c09.pipe-string", "Reader/{k|string}", c.P.Pos(f.Pos()), "NULL stays NULL; numbers through FormatFloat('f', -1)", strings.Join(uniq(why), "; "))
+}
